@@ -2,6 +2,7 @@ package guards
 
 import (
 	"fmt"
+	"strings"
 	"go/token"
 	"go/types"
 	"sort"
@@ -47,7 +48,7 @@ func (a *FuncAn) killByWrite(m availMap, w *apath) {
 }
 
 func (a *FuncAn) killByCall(m availMap, ws *WriteSet) {
-	if ws == nil || (!ws.Any && len(ws.Types) == 0) {
+	if ws == nil || (!ws.Any && len(ws.Writes) == 0) {
 		return
 	}
 	for k, e := range m {
@@ -58,8 +59,8 @@ func (a *FuncAn) killByCall(m availMap, ws *WriteSet) {
 			delete(m, k)
 			continue
 		}
-		for _, t := range ws.Types {
-			if typesOverlap(t, e.p.typ) {
+		for _, d := range ws.Writes {
+			if writeKills(d, e.p) {
 				delete(m, k)
 				break
 			}
@@ -86,6 +87,9 @@ func (a *FuncAn) availTransfer(b *ssa.BasicBlock, m availMap) {
 				continue
 			}
 			k := p.key()
+			if _, isStruct := x.Type().Underlying().(*types.Struct); isStruct {
+				a.loadSnap[x] = snapshot(m)
+			}
 			if e, ok := m[k]; ok && types.Identical(e.rep.Type(), x.Type()) {
 				a.canon[x] = e.rep
 			} else {
@@ -101,11 +105,22 @@ func (a *FuncAn) availTransfer(b *ssa.BasicBlock, m availMap) {
 			a.killByWrite(m, w)
 			m[w.key()] = availEnt{w, x.Val}
 		case ssa.CallInstruction:
+			if c, ok := x.(*ssa.Call); ok && c.Call.StaticCallee() != nil {
+				a.callSnap[c] = snapshot(m)
+			}
 			a.killByCall(m, a.E.callWrites(a, x))
 		case *ssa.RunDefers:
 			a.killByCall(m, a.E.deferWrites(a))
 		}
 	}
+}
+
+func snapshot(m availMap) map[string]ssa.Value {
+	s := make(map[string]ssa.Value, len(m))
+	for k, e := range m {
+		s[k] = e.rep
+	}
+	return s
 }
 
 func (a *FuncAn) computeCanon() {
@@ -194,6 +209,16 @@ func (a *FuncAn) proverFor(s *State) *prover {
 				continue
 			}
 			ok := c.okCall == nil || s.truth[c.okCall]
+			for _, il := range c.preLits {
+				if !ok {
+					break
+				}
+				p.steps = 0
+				ok = a.litHolds(s, p, il)
+				if DebugAllFacts {
+					fmt.Printf("DEBUG lit %v lin=%v neq=%v holds=%v\n", il.isBool, il.lin, il.neq, ok)
+				}
+			}
 			for _, pre := range c.pre {
 				if !ok {
 					break
@@ -248,6 +273,9 @@ func (a *FuncAn) condFacts(s *State, cond ssa.Value, truth bool) {
 		if c.Op == token.NOT {
 			a.condFacts(s, c.X, !truth)
 		}
+		return
+	case *ssa.Call:
+		a.boolCallFacts(s, c, truth)
 		return
 	case *ssa.Extract:
 		if ta, ok := c.Tuple.(*ssa.TypeAssert); ok && c.Index == 1 && truth {
@@ -404,7 +432,7 @@ func valueStale(v interface{}, b *ssa.BasicBlock) bool {
 
 // edgeState: the facts that hold when control enters b from its idx-th predecessor p.
 func (a *FuncAn) edgeState(p, b *ssa.BasicBlock, idx int) *State {
-	ps := a.in[p]
+	ps := a.out[p]
 	if ps == nil {
 		return nil
 	}
@@ -463,6 +491,18 @@ func (a *FuncAn) edgeState(p, b *ssa.BasicBlock, idx int) *State {
 	for phi, ok := range nn {
 		if ok {
 			s.nonnil[phi] = true
+		}
+	}
+	for k, pv := range s.nnPath {
+		p := pv.(*apath)
+		drop := valueStale(p.root, b)
+		for _, st := range p.steps {
+			if strings.HasPrefix(st.key, "[v:") {
+				drop = true
+			}
+		}
+		if drop {
+			delete(s.nnPath, k)
 		}
 	}
 	if len(phis) == 0 {
@@ -564,6 +604,7 @@ func (a *FuncAn) edgeState(p, b *ssa.BasicBlock, idx int) *State {
 	}
 	ns.nonnil = s.nonnil
 	ns.truth = s.truth
+	ns.nnPath = s.nnPath
 	return ns
 }
 
@@ -623,6 +664,11 @@ func (a *FuncAn) join(A, B *State) *State {
 			r.truth[v] = t
 		}
 	}
+	for k, p := range A.nnPath {
+		if _, ok := B.nnPath[k]; ok {
+			r.nnPath[k] = p
+		}
+	}
 	return r
 }
 
@@ -667,6 +713,7 @@ func (a *FuncAn) run() {
 		entry = NewState()
 	}
 	a.in[fn.Blocks[0]] = entry
+	a.out[fn.Blocks[0]] = a.transfer(fn.Blocks[0], entry, nil)
 	visits := map[*ssa.BasicBlock]int{}
 	isHead := map[*ssa.BasicBlock]bool{}
 	for _, b := range fn.Blocks {
@@ -691,6 +738,7 @@ func (a *FuncAn) run() {
 			if s == nil {
 				if old != nil {
 					a.in[b] = nil
+					a.out[b] = nil
 					changed = true
 				}
 				continue
@@ -708,6 +756,7 @@ func (a *FuncAn) run() {
 			}
 			if old == nil || !old.equal(s) {
 				a.in[b] = s
+				a.out[b] = a.transfer(b, s, nil)
 				changed = true
 			}
 		}
@@ -778,6 +827,9 @@ func (a *FuncAn) isNonNil(s *State, v ssa.Value) bool {
 		if c, ok := x.Tuple.(*ssa.Call); ok {
 			return a.E.resultNonNil(a, c, x.Index)
 		}
+		return a.registryValueNonNil(s, x)
+	case *ssa.UnOp:
+		return a.registryValueNonNil(s, x)
 	case *ssa.Phi:
 		// all edges statically non-nil
 		for _, e := range x.Edges {
@@ -790,4 +842,86 @@ func (a *FuncAn) isNonNil(s *State, v ssa.Value) bool {
 		return true
 	}
 	return false
+}
+
+// transfer applies the in-block effects that concern memory-held nil-ness: stores of non-nil values make a
+// location non-nil until something may overwrite it; a load from such a location yields a non-nil value.
+// If stop is non-nil the replay ends before that instruction.
+func (a *FuncAn) transfer(b *ssa.BasicBlock, in *State, stop ssa.Instruction) *State {
+	s := in
+	cloned := false
+	mut := func() {
+		if !cloned {
+			s = s.Clone()
+			cloned = true
+		}
+	}
+	kill := func(f func(p *apath) bool) {
+		for k, pv := range s.nnPath {
+			if f(pv.(*apath)) {
+				mut()
+				delete(s.nnPath, k)
+			}
+		}
+	}
+	for _, ins := range b.Instrs {
+		if ins == stop {
+			break
+		}
+		switch x := ins.(type) {
+		case *ssa.Alloc:
+			kill(func(p *apath) bool { return p.root == ssa.Value(x) })
+		case *ssa.Store:
+			w := a.pathOf(x.Addr)
+			if w == nil {
+				kill(func(*apath) bool { return true })
+				continue
+			}
+			kill(func(p *apath) bool { return a.mayAlias(p, w) })
+			if pointerLike(x.Val.Type()) && a.isNonNil(s, x.Val) {
+				mut()
+				s.nnPath[w.key()] = w
+			}
+		case *ssa.UnOp:
+			if x.Op == token.MUL && pointerLike(x.Type()) {
+				if p := a.pathOf(x.X); p != nil {
+					if _, ok := s.nnPath[p.key()]; ok && !s.nonnil[x] {
+						mut()
+						s.nonnil[x] = true
+					}
+				}
+			}
+		case ssa.CallInstruction:
+			if len(s.nnPath) > 0 {
+				m := availMap{}
+				for k, pv := range s.nnPath {
+					m[k] = availEnt{pv.(*apath), nil}
+				}
+				a.killByCall(m, a.E.callWrites(a, x))
+				if len(m) != len(s.nnPath) {
+					mut()
+					for k := range s.nnPath {
+						if _, ok := m[k]; !ok {
+							delete(s.nnPath, k)
+						}
+					}
+				}
+			}
+		case *ssa.RunDefers:
+			kill(func(p *apath) bool {
+				al, ok := p.root.(*ssa.Alloc)
+				return !ok || a.escapes(al)
+			})
+		}
+	}
+	return s
+}
+
+// stateBefore: the facts that hold immediately before instruction ins.
+func (a *FuncAn) stateBefore(ins ssa.Instruction) *State {
+	in := a.in[ins.Block()]
+	if in == nil {
+		return nil
+	}
+	return a.transfer(ins.Block(), in, ins)
 }
